@@ -282,6 +282,7 @@ def check(prog, run):
             run.report(r, "%s:%s:unhandled(%s)" % (f.module.name, f.qualname, exc), f.where(), "%s lets %s escape as is" % (f.qualname, exc))
 
     check_numeric_conversions(prog, run, "I4")
+    check_default_only_when_absent(prog, run, "D1")
     from . import c04
     c04.check_context_threading(prog, run, "V1")
     c04.check_memo_keys(prog, run, "M1")
@@ -347,3 +348,50 @@ def check_numeric_conversions(prog, run, rule_id):
                            "`%s` can raise OverflowError (argument kind: %s) outside any handler for it: the error is neither ValueError "
                            "nor TypeError, so ScalarType does not turn it into a coercion error and it aborts the whole request"
                            % (ast.unparse(n), "/".join(sorted(kinds)) if kinds else "unknown"))
+
+
+def check_default_only_when_absent(prog, run, rule_id):
+    """A declared default replaces an ABSENT value only; a provided value (explicit null included) is coerced as given."""
+    from .. import boolx
+    r = run.rule(rule_id, "in the coercion routes (coerce_variable_values, coerce_argument_values, _coerce_input_object, "
+                          "_extract_input_object) a declared default (`.default_value`) is read only on executions where the membership "
+                          "test of the name in the provided container is false: with every `name in provided` atom true (path-consistent "
+                          "walk of the function or of its per-member loop body) no expression mentioning `.default_value` other than a "
+                          "bare presence test is evaluated — an explicit null is a value, not a request for the default", 4)
+    targets = [(CV, "coerce_variable_values"), (CV, "coerce_argument_values"), (CV, "_coerce_input_object"), (VFA, "_extract_input_object")]
+    for modname, fname in targets:
+        f = prog.get_func(modname, fname)
+        run.looked_at(f)
+        loops = [n for n in f.node.body if isinstance(n, ast.For)]
+        bodies = [("loop over %s" % ast.unparse(lp.iter)[:30], lp.body) for lp in loops] or [("body", f.node.body)]
+        for label, body in bodies:
+            fake = ast.FunctionDef(name="_", args=f.node.args, body=body, decorator_list=[], returns=None, type_comment=None)
+            members = set()
+            for st in body:
+                for c in ast.walk(st):
+                    if isinstance(c, ast.Compare) and len(c.ops) == 1 and isinstance(c.ops[0], (ast.In, ast.NotIn)):
+                        members.add(boolx.canonical_atom(c)[0])
+            if not members:
+                continue
+            try:
+                def decide(t):
+                    try:
+                        e = ast.parse(t, mode="eval").body
+                    except SyntaxError:
+                        return None
+                    return True if isinstance(e, ast.Compare) and len(e.ops) == 1 and isinstance(e.ops[0], ast.In) else None
+                evaluated, exits = boolx.walk_under(fake, decide)
+            except ValueError as e:
+                raise AnalysisError("%s: %s" % (rule_id, e))
+            r.instance("%s %s: %d membership atoms assumed true, %d expressions evaluated" % (fname, label, len(members), len(evaluated)))
+            seen = set()
+            for n, env in evaluated.values():
+                if isinstance(n, ast.Call) and any(isinstance(x, ast.Attribute) and x.attr in ("default_value", "_default_value") for a in list(n.args) + [k.value for k in n.keywords] for x in ast.walk(a)):
+                    key = " ".join(ast.unparse(n).split())[:60]
+                    if key in seen:
+                        continue
+                    seen.add(key)
+                    cond = ", ".join("%s=%s" % kv for kv in sorted(env.items()) if kv[0] not in (boolx.CALLS, boolx.STMTS))
+                    run.report(r, "%s:%s:default-for-provided-value" % (modname, fname), f.where(n),
+                               "`%s` uses the declared default although the name is present in the provided values (when %s): a value "
+                               "explicitly given as null is replaced by the default instead of being delivered / rejected as null" % (key, cond))
